@@ -282,6 +282,33 @@ def u_mixed_ops(n, r):
             'print(fn_mix{n}(7, 2, 10), fn_mix{n}(0, 5, 1))'], {}
 
 
+def u_branch_rebind(n, r):
+    # a local rebound on one path only (if / for+if), read on that path right after the rebinding
+    # and again after the paths merge: a statement range starting at the if/for needs the variable
+    # as an input although its textually first occurrence in the range is a binding
+    return ['def fn_br{n}(par_f{n}, par_r{n}):',
+            '    var_rate{n} = par_r{n}',
+            '    var_lab{n} = 0',
+            '    if par_f{n}:',
+            '        var_rate{n} = 5',
+            '        var_lab{n} = var_rate{n}',
+            '    var_tot{n} = var_rate{n} * 2',
+            '    var_best{n} = par_r{n}',
+            '    var_seen{n} = 0',
+            '    for var_k{n} in [1, 9, 4]:',
+            '        if var_k{n} > par_f{n} + 5:',
+            '            var_best{n} = var_k{n}',
+            '            var_seen{n} = var_best{n}',
+            '    var_out{n} = var_best{n} - var_seen{n}',
+            '    if par_f{n} > 1:',
+            '        var_tot{n} = 1',
+            '    else:',
+            '        var_lab{n} = var_tot{n}',
+            '    var_end{n} = var_tot{n} + var_lab{n}',
+            '    return [var_lab{n}, var_tot{n}, var_out{n}, var_end{n}]',
+            'print(fn_br{n}(1, 3), fn_br{n}(0, 3), fn_br{n}(7, 2))'], {}
+
+
 def u_accumulate(n, r):
     return ['def fn_stats{n}(par_xs{n}):',
             '    var_total{n} = 0',
@@ -430,7 +457,7 @@ def u_decorated_methods(n, r):
 SINGLE = [u_function, u_class, u_inherit, u_closure_nonlocal, u_closure, u_comp_filter, u_comp, u_loop,
           u_try, u_lambda, u_generator, u_decorator, u_property, u_global, u_with, u_starargs, u_dicts,
           u_walrus_while, u_method_chain, u_rebind_if, u_rebind_try, u_rebind_while, u_arith, u_arith, u_accumulate, u_accumulate,
-          u_async_methods, u_decorated_methods, u_mixed_ops]
+          u_async_methods, u_decorated_methods, u_mixed_ops, u_branch_rebind]
 MULTI = [m_import_module, m_from_import, m_alias, m_reexport, m_keyword_across, m_submodule,
          m_global_across, m_deep_package, m_self_mentioning_module]
 
